@@ -362,6 +362,16 @@ def run_case(case, ctx):
             break
     if len(set(a3.atom_type_labels)) != len(a3.atom_type_labels) or set(a3.atom_type_labels) != set(utypes):
         fail("retyped label table %s is not the set of UFF types in use" % (list(a3.atom_type_labels),), "retype")
+    # history: the same object is retyped again with the same types assigned to other atoms
+    rot = [utypes[(i + 1) % n] for i in range(n)]
+    ru.retype_atoms_from_uff_types(a3, rot)
+    for i in range(n):
+        t = int(a3.atom_types[i])
+        el = rot[i][0:2].replace("_", "")
+        if a3.atom_type_labels[t] != rot[i] or a3.atom_type_elements[t] != el or abs(a3.atom_type_masses[t] - ATOMIC_MASSES[el]) > 1e-12:
+            fail("after retyping the same object a second time atom %d (%s) resolves to label %s element %s" % (i, rot[i], a3.atom_type_labels[t], a3.atom_type_elements[t]), "retype_twice")
+            break
+    ru.retype_atoms_from_uff_types(a3, utypes)
     ru.assign_pair_coeffs(a3)
     for t, lab in enumerate(a3.atom_type_labels):
         body, comment = parse_coeff(a3.pair_coeffs[t])
